@@ -104,6 +104,15 @@ func (d *D) NormAtom(cond ssa.Value, pol bool) Atom {
 			if b.Op == token.NEQ {
 				pol = !pol
 			}
+			// a value compared with itself, or a freshly made error compared with nil
+			// (both arise when a helper that was walked through returns nil / an error
+			// and its caller tests the result): a constant, not a condition
+			if x == y {
+				return Atom{"true", pol}
+			}
+			if y == "nil" && nonNilDesc(x) {
+				return Atom{"false", pol}
+			}
 			return Atom{x + "==" + y, pol}
 		case token.LSS:
 			return lenZero(Atom{x + "<" + y, pol})
@@ -189,4 +198,17 @@ func lenZero(a Atom) Atom {
 		return Atom{"0:int==" + strings.TrimSuffix(a.S, "<1:int"), a.Pol}
 	}
 	return a
+}
+
+// nonNilDesc: descriptors of values that are never nil: a fresh error, or a
+// sentinel error variable (package-level Err…).
+func nonNilDesc(x string) bool {
+	if strings.HasPrefix(x, "errors.New(") || strings.HasPrefix(x, "fmt.Errorf(") {
+		return true
+	}
+	name := x[strings.LastIndex(x, ".")+1:]
+	if len(name) > 3 && strings.HasPrefix(name, "Err") && name[3] >= 'A' && name[3] <= 'Z' && !strings.ContainsAny(x, "()[]{} ") {
+		return true
+	}
+	return false
 }
